@@ -96,7 +96,11 @@ func (jd *JarDigest) insertSignature(cert *x509.Certificate, alias string, sf, s
 	// Patch out old files
 	patch := binpatch.New()
 	patch.Add(0, 0, zipcon.Bytes())
+	var layout zipslicer.Contiguous
 	for _, f := range jd.inz.File {
+		if err := layout.Next(f); err != nil {
+			return nil, err
+		}
 		if keepFile(f.Name) {
 			// Add existing file to the new zip directory. Its offset will be changed.
 			if _, err := outz.AddFile(f); err != nil {
@@ -113,6 +117,9 @@ func (jd *JarDigest) insertSignature(cert *x509.Certificate, alias string, sf, s
 			}
 			patch.Add(int64(f.Offset), size, nil)
 		}
+	}
+	if err := layout.End(jd.inz.DirLoc); err != nil {
+		return nil, err
 	}
 	zipdir := new(bytes.Buffer)
 	if err := outz.WriteDirectory(zipdir, zipdir, false); err != nil {
